@@ -1,3 +1,4 @@
+import Driver.D10
 import Driver.D23
 import Driver.D25
 import Driver.D29
@@ -16,6 +17,7 @@ def dispatch (line : String) : String :=
     else if stream ∈ ["coord", "lookup"] then c23 stream fs
     else if stream ∈ ["pack", "alloc"] then c31 stream fs
     else if stream ∈ ["maxdepth"] then c25 stream fs
+    else if stream ∈ ["lit", "i32", "f64fix", "typrint"] then c10 stream fs
     else "unknown-stream"
 
 partial def loop (h : IO.FS.Stream) (out : IO.FS.Stream) : IO Unit := do
